@@ -111,7 +111,7 @@ CLAIMED = {
 PENDING = "check under construction in this build phase (see DESIGN.md); not claimed until its check is committed"
 NOT_APPLICABLE = {
 
-    "C19": PENDING,
+    "C19": "the only encodable slice is key validation (keys.rs), and it does not fit: validate_key parses every segment with std::path::Path::components; CBMC gave no verdict in 20 min for every 4-byte key over {a . /}, nor for 9 two-byte segments chosen from {aa, ..} (harness kept in kani/cbh_storage for reference); crash-point atomicity, byte-identical round trips and concurrent readers/writers go through tokio::fs, flate2 and the OS file system, which cannot be encoded",
     "C03": "wrapper pools (Arc<Mutex<..>>, Rc<RefCell<..>> + type-erased removers) exhaust 20-28 GB in CBMC even for {insert; drop handle} at capacity 2 (DESIGN.md P22); the Send/Sync clause is a trait-solver question, not an SMT query over the code",
     "C04": "the panic half needs unwinding (absent in Kani; catch_unwind even ICEs it) and the re-entrancy half needs the wrapper-pool shapes that do not fit (P22)",
     "C09": "take/take_all run through foldhash maps, pdqsort, VecDeque, rejection-sampling RNG loops and Arc-carrying processor records; a 4-processor/2-region query used 30 GB for 20 min without a verdict (P12)",
